@@ -433,16 +433,34 @@ Definition handle_sequence_reset (seqnum : N) (m : msg) : M bool :=
   (if s_state s' =? st_resend_request_sent then set_state st_continuous else ret tt) ;;;
   ret true.
 
-(* Session::retrans_callback for one stored record *)
+(* Session::retrans_callback for one stored record (since /repo 930506b the gap fills of scenarios #2/#3
+   carry the first number of the gap as custom sequence number) *)
 Definition retrans_record (begin : N) (last : N) (seq : N) (raw : bytes) : M bool :=
-  s <- get ;;
   (if negb (last =? 0) then
      (if last + 1 <? seq
-      then do_send (generate_sequence_reset seq true) (s_next_send s) false ;;; ret tt    (* scenario #2 *)
+      then do_send (generate_sequence_reset seq true) (last + 1) false ;;; ret tt    (* scenario #2 *)
       else ret tt)
    else
      (if begin <? seq
-      then do_send (generate_sequence_reset seq true) 0 false ;;; ret tt                  (* scenario #3 *)
+      then do_send (generate_sequence_reset seq true) begin false ;;; ret tt         (* scenario #3 *)
+      else ret tt)) ;;;
+  match decode raw with
+  | DecOk m => do_send m 0 false
+  | DecExc text force => throw text force
+  end.
+
+(* the callback BEFORE /repo 930506b (F22): the gap fill of scenario #2 carried the CURRENT next_send as
+   custom sequence number and the one of scenario #3 no custom number at all (again next_send), instead
+   of the first number of the gap; kept only for an ..._orig_refuted witness *)
+Definition retrans_record_orig (begin : N) (last : N) (seq : N) (raw : bytes) : M bool :=
+  s <- get ;;
+  (if negb (last =? 0) then
+     (if last + 1 <? seq
+      then do_send (generate_sequence_reset seq true) (s_next_send s) false ;;; ret tt
+      else ret tt)
+   else
+     (if begin <? seq
+      then do_send (generate_sequence_reset seq true) 0 false ;;; ret tt
       else ret tt)) ;;;
   match decode raw with
   | DecOk m => do_send m 0 false
